@@ -385,3 +385,114 @@ Example demo_alias_is_visible :
   let '(hp2, _) := apply_muts (fst demo_store) (snd demo_store) demo_muts in
   h_contigs (view hp2 (snd demo_store)) = Some [s_chr1; s_chr2; s_k].
 Proof. vm_compute. reflexivity. Qed.
+
+(* ====================================================================== *)
+(* LineReader / from_line_reader, from_defaults / from_reader /
+   scheme_header_lines (proofs/HeaderLineReader.v, proofs/HeaderDerive.v)   *)
+(* ====================================================================== *)
+From MafVerif Require Import model.LineReader proofs.HeaderLineReader proofs.HeaderDerive.
+
+(* from_line_reader lr = from_lines of the maximal prefix of lines starting
+   with '#' that the reader still holds; afterwards the reader has counted
+   exactly those lines and shows the line right behind them (lines beyond the
+   end of the input read as "") *)
+Theorem C13_from_line_reader_is_from_lines :
+  forall (C : Type) (registry : list (scheme C)) (lr : linereader) m lg,
+    let pre := take_while is_header_line (lr_view lr) in
+    let out := header_from_line_reader registry lr m lg in
+    fst out = header_from_lines registry pre m lg /\
+    lr_no (snd out) = lr_no lr + Z.of_nat (length pre) /\
+    (forall i, nth i (lr_view (snd out)) [] = nth (length pre + i) (lr_view lr) []).
+Proof. intros C registry lr m lg. exact (from_line_reader_spec registry lr m lg). Qed.
+Print Assumptions C13_from_line_reader_is_from_lines.
+
+(* read_line steps over a non-empty line and counts it; on an empty line, as
+   at the end of the input, it returns "" and does not move *)
+Theorem C13_line_reader_read_line :
+  forall (lr : linereader),
+    match lr_line lr with
+    | [] => lr_read_line lr = ([], lr)
+    | c :: cur =>
+        fst (lr_read_line lr) = c :: cur /\ lr_no (snd (lr_read_line lr)) = lr_no lr + 1 /\
+        forall i, nth i (lr_view (snd (lr_read_line lr))) [] = nth (S i) (lr_view lr) []
+    end.
+Proof. exact lr_read_line_spec. Qed.
+Print Assumptions C13_line_reader_read_line.
+
+(* from_defaults(version, annotation) prints the two lines
+   scheme_header_lines gives for a scheme with that pair *)
+Theorem C13_defaults_print_scheme_lines :
+  forall (C : Type) (s : scheme C) c v d a,
+    s_version s = c :: v -> s_annot s = d :: a ->
+    exists h, header_from_defaults (Some (s_version s)) (Some (s_annot s)) None None = Ok h /\
+              header_print_lines (hrecs h) = scheme_header_lines s /\ herrs h = [] /\ hmode h = Silent.
+Proof. intros C s c v d a. exact (defaults_print_scheme_lines s c v d a). Qed.
+Print Assumptions C13_defaults_print_scheme_lines.
+
+(* all four arguments: exactly those pragmas, in the order they are set; a
+   coordinate-type order carries the contigs given *)
+Theorem C13_defaults_print_all :
+  forall c v d a x cs o own,
+    exists h, header_from_defaults (Some (c :: v)) (Some (d :: a)) (Some (SoArgInst o own)) (Some (x :: cs)) = Ok h /\
+      header_print_lines (hrecs h) =
+        [ pragma_line K_VERSION (c :: v); pragma_line K_ANNOT (d :: a);
+          pragma_line K_CONTIGS (join [COMMA] (x :: cs)); pragma_line K_SORT (so_name o) ] /\
+      h_sort_order (hrecs h) = (o, if so_is_coord o then x :: cs else own).
+Proof. exact defaults_print_all. Qed.
+Print Assumptions C13_defaults_print_all.
+
+(* a sort order that brings its own contigs and no contigs argument: the
+   contigs pragma is derived from it; contigs without a sort order; falsy
+   arguments (None, "", []) change nothing; an unknown order name raises *)
+Theorem C13_defaults_other_combinations :
+  (forall c v o x own,
+     exists h, header_from_defaults (Some (c :: v)) None (Some (SoArgInst o (x :: own))) None = Ok h /\
+       header_print_lines (hrecs h) =
+         [ pragma_line K_VERSION (c :: v); pragma_line K_SORT (so_name o);
+           pragma_line K_CONTIGS (join [COMMA] (x :: own)) ]) /\
+  (forall x cs,
+     exists h, header_from_defaults None None None (Some (x :: cs)) = Ok h /\
+       header_print_lines (hrecs h) = [ pragma_line K_CONTIGS (join [COMMA] (x :: cs)) ]) /\
+  (forall recs,
+     apply_overrides recs None None None None = Ok recs /\
+     apply_overrides recs (Some []) (Some []) (Some (SoArgName [])) (Some []) = Ok recs) /\
+  (forall recs name, name <> [] -> so_of_name name = None ->
+     apply_overrides recs None None (Some (SoArgName name)) None = Raise PlainException).
+Proof.
+  split; [exact defaults_print_order_with_contigs|].
+  split; [exact defaults_print_contigs_only|].
+  split; [exact overrides_falsy|exact overrides_unknown_order].
+Qed.
+Print Assumptions C13_defaults_other_combinations.
+
+(* from_reader = the same overrides applied to a copy of the reader's header *)
+Theorem C13_from_reader_is_overrides :
+  forall (src : header) v a so cs h,
+    header_from_reader src v a so cs = Ok h ->
+    apply_overrides (hrecs src) v a so cs = Ok (hrecs h) /\ herrs h = herrs src /\ hmode h = hmode src.
+Proof. exact from_reader_is_overrides. Qed.
+Print Assumptions C13_from_reader_is_overrides.
+
+(* ... and in the store model these overrides are mutations of the deep copy:
+   the derived header reads as the overrides of the source's pragmas while the
+   reader's own header reads as before *)
+Theorem C13_from_reader_leaves_source_untouched :
+  forall hp src hp1 cp c v d a x cs,
+    wf hp src -> deepcopy hp [] src = (hp1, cp) ->
+    let ms := [MSetText K_VERSION (c :: v); MSetText K_ANNOT (d :: a); MSetContigs (x :: cs)] in
+    view (fst (apply_muts hp1 cp ms)) src = view hp src /\
+    apply_overrides (view hp src) (Some (c :: v)) (Some (d :: a)) None (Some (x :: cs)) =
+    Ok (view (fst (apply_muts hp1 cp ms)) (snd (apply_muts hp1 cp ms))).
+Proof. exact from_reader_in_store. Qed.
+Print Assumptions C13_from_reader_leaves_source_untouched.
+
+(* an empty line inside the pragma block: handle "#k v\n", "\n", "#j w\n".
+   from_line_reader reads the first pragma only; the reader then shows "" and
+   read_line never gets past the empty line *)
+Definition lr_demo : linereader := lr_new [[35;107;32;118;10]%N; [10%N]; [35;106;32;119;10]%N].
+Example empty_line_in_pragma_block_values :
+  let out := header_from_line_reader (@nil (scheme unit)) lr_demo (Some Silent) LgRoot in
+  match snd (fst out) with Ok h => map fst (hrecs h) | Raise _ => [] end = [[107%N]] /\
+  lr_no (snd out) = 1 /\ lr_peek (snd out) = [] /\
+  lr_read_line (snd out) = ([], snd out) /\ fst (lr_next (snd out)) = Raise StopIteration.
+Proof. vm_compute. repeat split. Qed.
